@@ -95,6 +95,70 @@ def incompr(ctx, dim, N):
         ctx.ensure("divergence=0", abs(div) <= 1e-5 * scale * 10)
 
 
+@contract(P, "SRF[VectorField].__call__/divergence-free-and-mean-along-x-for-every-isotropic-model",
+          params=[{"dim": d, "rot": r} for d in (2, 3) for r in ("none", "angles")],
+          functions=FN + ["field/srf.py:SRF.__call__", "field/base.py:Field.pre_pos", "covmodel/base.py:CovModel.isometrize"],
+          timeout=90, nsamples=2, search=20)
+def srf_incompr(ctx, dim, rot):
+    """the statement is about generated FIELDS: positions reach the generator through
+    Field.pre_pos / CovModel.isometrize.  A model with all anisotropy ratios 1 is isotropic whatever
+    its rotation angles are (`is_isotropic`); the generated vector field must be divergence-free in
+    the user's coordinates and its mean must be u_mean e_1 in the user's axes"""
+    m = ctx.m
+    U = gc.generic_model_class(ctx)
+    v, l = ctx.real("var", pos=True), ctx.real("len", pos=True)
+    ctx.require(ctx.And(ctx.gt(v, 0), ctx.gt(l, 0)))
+    kw = {}
+    if rot == "angles":
+        kw["angles"] = ctx.reals("ang", dim * (dim - 1) // 2, angle=True)
+    mod = _q(U, dim=dim, var=v, len_scale=l, **kw)
+    ctx.ensure("model-is-isotropic", bool(mod.is_isotropic))
+    s = ctx.integer("seed", lo=1, hi=1000)
+    ubar = ctx.real("u_mean", lo=0.5, hi=2.0)
+    N = 1
+    srf = _q(gs.SRF, mod, generator="VectorField", mean_velocity=ubar, mode_no=N, seed=s)
+    g = srf.generator
+    k, z1, z2 = g._cov_sample, g._z_1, g._z_2
+    k2 = [sum(k[d, j] * k[d, j] for d in range(dim)) for j in range(N)]
+    nz = [ctx.require(ctx.gt(k2[j], 0)) for j in range(N)]
+    x = ctx.reals("x", dim)
+
+    def field_at(pt):
+        pos = np.array([[c] for c in pt], dtype=object)
+        if ctx.mode == "conc":
+            pos = pos.astype(float)
+        return _q(srf, pos, post_process=False, store=False)
+
+    out = field_at(x)
+    ctx.ensure("shape", ctx.shape_eq(out, (dim, 1)))
+    if ctx.mode == "sym":
+        div = 0
+        for d in range(dim):
+            div = div + symrun.from_term(D(symrun.lift(out[d, 0]), x[d].t))
+        ctx.ensure("divergence=0", ctx.eq(div, 0), using=nz + list(ctx.path.pc))
+        sub = [(symrun.lift(z), z3.RealVal(0)) for z in list(z1) + list(z2)]
+        for d in range(dim):
+            const = z3.substitute(symrun.lift(out[d, 0]), *sub)
+            ctx.ensure("E_z[u_%d]=u_mean*delta" % d, ctx.eq(symrun.SymReal(const), ubar * (1 if d == 0 else 0)))
+    else:
+        h = 1e-5
+        div = 0.0
+        for d in range(dim):
+            e = np.zeros(dim)
+            e[d] = h
+            div += (field_at(np.array(x, dtype=float) + e)[d, 0] - field_at(np.array(x, dtype=float) - e)[d, 0]) / (2 * h)
+        scale = abs(float(ubar)) * (1 + float(np.max(np.abs(k)))) + 1e-12
+        ctx.ensure("divergence=0", abs(div) <= 1e-5 * scale * 10)
+        z1s, z2s = np.array(g._z_1, dtype=float), np.array(g._z_2, dtype=float)
+        g._z_1, g._z_2 = np.zeros_like(z1s), np.zeros_like(z2s)
+        try:
+            c0 = field_at(x)
+        finally:
+            g._z_1, g._z_2 = z1s, z2s
+        for d in range(dim):
+            ctx.ensure("E_z[u_%d]=u_mean*delta" % d, abs(c0[d, 0] - float(ubar) * (1 if d == 0 else 0)) <= 1e-12)
+
+
 @contract(P, "IncomprRandMeth.__init__/only-2d-3d", params={"dim": [1, 2, 3, 4]}, functions=FN)
 def dims(ctx, dim):
     mod = _q(gs.Gaussian, dim=dim)
